@@ -187,10 +187,17 @@ def gen_ops(rng, desc, nmax=8):
             ops.append(('aw', dyadic(rng, 0.45, 0.65, 6), rng.random() < 0.4))
         elif u < 0.72:
             attr = rng.choice(['radius', 'conic', 'thickness'])
-            ops.append(('pk', rng.choice(plain), attr, rng.choice(plain), rng.choice([1.0, -1.0, 0.5, 2.0]),
+            src, tgt = rng.choice(plain), rng.choice(plain)
+            if rng.random() < 0.3:
+                # surfaces counted from the image, as in Python indexing (the samples use -1 for the image surface)
+                src, tgt = (src - n if rng.random() < 0.7 else src), (tgt - n if rng.random() < 0.7 else tgt)
+            ops.append(('pk', src, attr, tgt, rng.choice([1.0, -1.0, 0.5, 2.0]),
                         dyadic(rng, -2, 2, 3) if rng.random() < 0.5 else 0.0))
         elif u < 0.78:
-            ops.append(('sv', rng.randint(2, n - 1), dyadic(rng, -1, 1, 4) if rng.random() < 0.5 else 0.0))
+            sidx = rng.randint(2, n - 1)
+            if rng.random() < 0.3:
+                sidx -= n
+            ops.append(('sv', sidx, dyadic(rng, -1, 1, 4) if rng.random() < 0.5 else 0.0))
         elif u < 0.86:
             ops.append(('up',))
         elif u < 0.92:
@@ -458,16 +465,29 @@ def gen_case(rng, quick=True):
         d['aperture'] = None
         feats.append('no-aperture')
     ops = gen_ops(rng, d) if rng.random() < 0.75 else []
-    return {'desc': d, 'ops': ops, 'Hy': rng.choice([0.0, 1.0, -1.0, rng.uniform(-1, 1)]),
+    post = []
+    if any(op[0] in ('pk', 'sv') for op in ops):
+        # later use of the reloaded lens: the same edits + update() on the original and on every reloaded lens
+        ns = len(d['surfaces'])
+        srcs = sorted({op[1] % ns for op in ops if op[0] == 'pk'} | {rng.randint(1, ns - 2)})
+        for k in srcs[:4]:
+            post.append(('sr', dyadic(rng, 15, 300, 3) * rng.choice([1, -1]), k))
+            if rng.random() < 0.5:
+                post.append(('sc', dyadic(rng, -3, 1, 5), k))
+        post.append(('st', dyadic(rng, 0.5, 30, 4), rng.randint(1, ns - 2)))
+        post.append(('up',))
+        feats.append('later-use')
+    return {'desc': d, 'ops': ops, 'post': post, 'Hy': rng.choice([0.0, 1.0, -1.0, rng.uniform(-1, 1)]),
             'nray': 12 if quick else 24, 'seed': rng.randint(0, 10 ** 9), 'wi': rng.randint(0, 2), 'features': feats}
 
 
 # ------------------------------------------------------------------ the round trips on the real code
-def round_trip(o, case, tmpdir, tag):
+def round_trip(o, case, tmpdir, tag, post=None):
     """all three round trips of one lens state; returns a result record (never raises)"""
     from optiland.optic import Optic
     from optiland.fileio.optiland_handler import save_optiland_file, load_optiland_file
     res = {'stage': tag}
+    o2 = o3 = None
     try:
         raw = o.to_dict()
     except Exception as e:  # noqa
@@ -532,6 +552,27 @@ def round_trip(o, case, tmpdir, tag):
                 res['dict4'] = d4
                 res['b2_diff'] = first_diff(squeeze(d), squeeze(d4))
                 res['c_file2'] = same_behaviour(beh, behaviour(o4, case))
+    if post and (o2 is not None or o3 is not None):
+        # later use: the reloaded lenses first, the original last (nothing else looks at it afterwards)
+        def later(lens):
+            errs = [apply_op(lens, tuple(op)) for op in post]
+            try:
+                return errs, behaviour(lens, case)
+            except Exception as e:  # noqa
+                return errs, type(e).__name__
+        l2 = later(o2) if o2 is not None else None
+        l3 = later(o3) if o3 is not None else None
+        l0 = later(o)
+        for key, l in (('c_mem_post', l2), ('c_file_post', l3)):
+            if l is None:
+                continue
+            if l[0] != l0[0]:
+                res[key] = 'later edits: %r vs %r' % (l0[0], l[0])
+            elif isinstance(l0[1], str) or isinstance(l[1], str):
+                res[key] = None if l0[1] == l[1] else 'later use: %r vs %r' % (l0[1], l[1])
+            else:
+                res[key] = same_behaviour(l0[1], l[1])
+        res['post_done'] = True
     return res
 
 
@@ -611,7 +652,7 @@ def run_case_impl(case, tmpdir):
                 etoks = None
             if etoks is not None:
                 etoks += tk
-        r = round_trip(o, case, tmpdir, 'edited')
+        r = round_trip(o, case, tmpdir, 'edited', post=case.get('post'))
         r['op_errors'] = errs
         r['edit_tokens'] = etoks
         r['z_kinds'] = z_kinds(o)
@@ -917,6 +958,12 @@ def evaluate(ctx, case, recs):
                 ctx.count('behaviour compared: ' + which)
         if r.get('orig_changed'):
             ctx.fail('from_dict leaves the original lens unchanged (%s lens)' % st, cs, r['orig_changed'])
+        if r.get('post_done'):
+            ctx.count('later use compared (same edits + update() on the original and the reloaded lenses)')
+            for which, k in (('from_dict(to_dict())', 'c_mem_post'), ('load(save())', 'c_file_post')):
+                if r.get(k):
+                    ctx.fail('reloaded lens behaves like the original under the same later edits and update(): %s'
+                             % which, cs, r[k])
 
 
 # ------------------------------------------------------------------ correspondence with the Lean model
